@@ -206,6 +206,7 @@ class Interp:
         self.max_faults = None    # None = any number of unwinds per path; k = at most k injected unwinds
         self.loop_limit = LOOP_LIMIT
         self.lists = {}           # list id -> length (k-bounded list model, see listmodel.py)
+        self.roles = {}           # crate-local helper path -> discovered role (anchors.py)
 
     # ---- opaque registry ------------------------------------------------
     def mkop(self, loc, ty=None, tag=None):
@@ -1081,7 +1082,7 @@ class Interp:
             h = self.primitives[tdef]
             if h is not None:
                 return h(self, st, fn, tdef, args, line, dest_ty, may_unwind)
-            ev = self.emit(st, {"k": "PRIM", "def": tdef, "args": args}, fn, line)
+            ev = self.emit(st, {"k": "PRIM", "def": tdef, "role": self.roles.get(tdef), "args": args}, fn, line)
             rv = self.fresh_op(st, "p", dest_ty, tag=("prim", tdef, ev["i"]))
             ev["result"] = rv[1]
             return self.outcomes(st, rv, may_unwind, tdef, fn, line)
